@@ -279,21 +279,34 @@ def load_corpus():
 
 
 def confirm_hangs(results, watchdog):
-    """a hang verdict under load is re-run alone with 6x the time before it counts"""
-    idx = [i for i, r in enumerate(results) if any(v["signature"].startswith(("hang", "cli-hang")) for v in r.get("verdicts", []))]
-    slow = 0
-    for i in idx:
-        r = results[i]
-        case = r.get("case")
-        if case is None:
-            continue
-        again = pmap("c08_judge", [(case, watchdog * 6)])[0]
-        still = [v for v in again.get("verdicts", []) if v["signature"].startswith(("hang", "cli-hang"))]
-        if not still:
+    """a hang verdict under load is re-run (in a pool of its own, 6x the time) before it counts.  At most three
+    batches of 16, smallest texts first; once a batch confirms a hang the remaining candidates keep their verdict
+    unexamined (one confirmed witness is enough), otherwise unexamined candidates are dropped and counted."""
+    def is_hang(v):
+        return v["signature"] in ("hang", "cli-hang")
+    idx = [i for i, r in enumerate(results) if any(is_hang(v) for v in r.get("verdicts", [])) and r.get("case") is not None]
+    idx.sort(key=lambda i: results[i].get("size", 0))
+    slow, confirmed, examined = 0, 0, 0
+    for b in range(3):
+        batch = idx[b * 16:(b + 1) * 16]
+        if not batch or confirmed:
+            break
+        again = pmap("c08_judge", [(results[i]["case"], watchdog * 6) for i in batch], chunksize=1)
+        for i, a in zip(batch, again):
+            examined += 1
+            r = results[i]
+            if "p1" not in a or any(is_hang(v) for v in a.get("verdicts", [])):
+                confirmed += 1
+                continue
             slow += 1
             keep = {k: r[k] for k in ("stream", "index", "tags", "hit", "size", "nlines", "hash", "case") if k in r}
-            results[i] = {**again, **keep, "slow": True}
-    return slow
+            results[i] = {**a, **keep, "slow": True}
+    if not confirmed:
+        for i in idx[examined:]:
+            r = results[i]
+            r["verdicts"] = [v for v in r["verdicts"] if not is_hang(v)]
+            r["unexamined_hang"] = True
+    return {"hang_candidates": len(idx), "slow_not_hung": slow, "confirmed_hangs": confirmed, "unexamined": max(0, len(idx) - examined)}
 
 
 def explore_texts(rep, seed, total, watchdog, label="explore"):
@@ -305,8 +318,8 @@ def explore_texts(rep, seed, total, watchdog, label="explore"):
     random.Random(seed).shuffle(jobs)      # spread the slow streams over the pool
     t0 = time.time()
     results = pmap("c08_judge_job", jobs, chunksize=8)
-    slow = confirm_hangs(results, watchdog)
-    info = {"texts": len(jobs), "wall_s": round(time.time() - t0, 1), "slow_not_hung": slow}
+    hang_info = confirm_hangs(results, watchdog)
+    info = {"texts": len(jobs), "wall_s": round(time.time() - t0, 1), **hang_info}
     return results, info
 
 
@@ -402,6 +415,8 @@ def run_corpus(rep, watchdog):
         c = {"files": d["files"], "fs": d.get("fs") or {}, "charset": d.get("charset", "bk"), "n": 0}
         if d.get("argv") is not None:
             c["argv"] = d["argv"]
+        if d.get("acyclic"):
+            c["acyclic"] = True
         cases.append(c)
     res = pmap("c08_judge", [(c, watchdog) for c in cases], chunksize=1)
     out = []
